@@ -17,6 +17,8 @@ import (
 	"github.com/tdakkota/docker-logql/internal/dockerlog"
 	"github.com/tdakkota/docker-logql/internal/logstorage"
 	"github.com/tdakkota/docker-logql/internal/otelstorage"
+	"github.com/tdakkota/docker-logql/verifharness/canon"
+	"github.com/tdakkota/docker-logql/verifharness/dl"
 	"github.com/tdakkota/docker-logql/verifharness/evid"
 	"github.com/tdakkota/docker-logql/verifharness/fakedocker"
 	"github.com/tdakkota/docker-logql/verifharness/gen"
@@ -48,6 +50,9 @@ type C03Case struct {
 	// ts-mutated: byte MutPos (mod length) of the frame's timestamp text is replaced by MutCh.
 	MutPos int  `json:"mut_pos,omitempty"`
 	MutCh  byte `json:"mut_ch,omitempty"`
+	// Others is the number of other, well-formed containers read by the same query in the
+	// end-to-end pass (0: the stream is read alone; more: it is one input of the merge).
+	Others int `json:"others,omitempty"`
 }
 
 func c03FormatTS(ts int64, f int) string {
@@ -184,6 +189,67 @@ func c03Compare(stream []byte, frag []int, errAt int, what string) *evid.Violati
 	return nil
 }
 
+// c03E2E is the second observation point of the statement: the same stream served by a fake
+// daemon as the log of one container (alone or next to others) and read by a log query through
+// the real Querier and engine. A stream that must be reported makes the query fail; any other one
+// contributes exactly its records.
+func c03E2E(stream []byte, frag []int, errAt int, others int, what string) *evid.Violation {
+	want, wantErr := c03RefDecode(stream, errAt)
+	d := &fakedocker.Daemon{}
+	ct := dl.Ctr("id0", "c0", nil, nil)
+	ct.Log, ct.Frag, ct.ReadErrAt = stream, frag, errAt
+	d.Containers = append(d.Containers, ct)
+	const otherTS = int64(1700000000e9)
+	for i := 1; i <= others; i++ {
+		d.Containers = append(d.Containers, dl.Ctr(fmt.Sprintf("id%d", i), fmt.Sprintf("c%d", i), nil, []dl.Line{{TS: otherTS + int64(i), Msg: fmt.Sprintf("other container %d", i)}}))
+	}
+	// The query window covers every generated instant; a record that a mutated timestamp moved
+	// out of it is not looked at (whether it is returned is a matter of the window, C02).
+	const winLo, winHi = int64(946684800e9), int64(7289654400e9)
+	inWindow := func(ts int64) bool { return ts > winLo && ts < winHi }
+	data, err := dl.Eval(d, "{}", dl.Params{Start: winLo, End: winHi, Step: 1e9, Limit: -1})
+	d.Done()
+	what = fmt.Sprintf("%s, read by {} next to %d other containers", what, others)
+	if wantErr {
+		if err == nil {
+			return evid.Viol("C03/e2e-error-swallowed", "%s: the stream must be reported as an error, the query succeeded", what)
+		}
+		return nil
+	}
+	if err != nil {
+		return evid.Viol("C03/e2e-spurious-error", "%s: the stream ends cleanly after %d records, the query failed: %v", what, len(want), err)
+	}
+	streams, err := canon.Streams(data)
+	if err != nil {
+		return evid.Viol("C03/e2e-result", "%s: %v", what, err)
+	}
+	got := map[string]int{}
+	n := 0
+	for _, e := range canon.Flatten(streams) {
+		if e.Labels["container_id"] != "id0" || !inWindow(int64(e.TS)) {
+			continue
+		}
+		got[fmt.Sprintf("%d %q", e.TS, e.Line)]++
+		n++
+	}
+	nWant := 0
+	for _, w := range want {
+		if !inWindow(w.ts) {
+			continue
+		}
+		nWant++
+		k := fmt.Sprintf("%d %q", w.ts, w.body)
+		if got[k] == 0 {
+			return evid.Viol("C03/e2e-records", "%s: record (%d, %q) of the stream is not in the result (%d of %d records returned)", what, w.ts, trunc(w.body), n, len(want))
+		}
+		got[k]--
+	}
+	if n != nWant {
+		return evid.Viol("C03/e2e-records", "%s: the result has %d records of the container, the stream holds %d", what, n, nWant)
+	}
+	return nil
+}
+
 func trunc(s string) string {
 	if len(s) > 120 {
 		return s[:120] + "…"
@@ -214,6 +280,7 @@ func c03Check(c C03Case) (r evid.Result) {
 	}
 	r.Class(splits, "frag-splits-header")
 	r.Class(len(c.Frag) == 0, "frag-none")
+	r.Class(c.Fault != "truncate-all", fmt.Sprintf("e2e-next-to-%d-others", c.Others))
 	r.NonTrivial = (len(c.Recs) >= 2 && len(c.Frag) > 0) || c.Fault != "" || c.Raw != ""
 
 	switch c.Fault {
@@ -253,6 +320,9 @@ func c03Check(c C03Case) (r evid.Result) {
 			t = c.Pos % (len(stream) + 1)
 		}
 		r.Violation = c03Compare(stream[:t], c.Frag, -1, fmt.Sprintf("stream truncated at byte %d of %d", t, len(stream)))
+		if r.Violation == nil {
+			r.Violation = c03E2E(stream[:t], c.Frag, -1, c.Others, fmt.Sprintf("stream truncated at byte %d of %d", t, len(stream)))
+		}
 		return r
 	case "ioerr":
 		t := 0
@@ -260,9 +330,15 @@ func c03Check(c C03Case) (r evid.Result) {
 			t = c.Pos % (len(stream) + 1)
 		}
 		r.Violation = c03Compare(stream, c.Frag, t, fmt.Sprintf("read error after byte %d of %d", t, len(stream)))
+		if r.Violation == nil {
+			r.Violation = c03E2E(stream, c.Frag, t, c.Others, fmt.Sprintf("read error after byte %d of %d", t, len(stream)))
+		}
 		return r
 	default:
 		r.Violation = c03Compare(stream, c.Frag, -1, "stream with fault "+c.Fault)
+		if r.Violation == nil {
+			r.Violation = c03E2E(stream, c.Frag, -1, c.Others, "stream with fault "+c.Fault)
+		}
 		if r.Violation == nil && c.Fault == "" && c.Raw == "" {
 			// Round trip: un-faulted streams decode into exactly the generated records.
 			got, _, _ := c03RunOnce(stream, c.Frag, -1)
@@ -402,7 +478,12 @@ func c03Gen(t *rapid.T) C03Case {
 	}
 	if c.Fault != "" && c.Fault != "truncate-all" {
 		c.Pos = rapid.IntRange(0, 1<<20).Draw(t, "pos")
+		// The broken frame is often the very first one.
+		if rapid.IntRange(0, 3).Draw(t, "fault-in-first-frame") == 0 {
+			c.Pos = 0
+		}
 	}
+	c.Others = rapid.SampledFrom([]int{0, 0, 1, 2, 3}).Draw(t, "others")
 	return c
 }
 
